@@ -12,7 +12,7 @@
    slot, token of the effective style, label).  lown s i = the cells a live object can reach. *)
 From Coq Require Import List Bool Arith.
 From MV Require Import Gen.GenForest Model.ForestPinned Model.ForestModel Model.ForestExec Model.CopyModel
-  Model.LabelModel Proofs.ForestInv Proofs.CopyBase Proofs.CopyProofs Proofs.LabelProofs Proofs.ForestFrame Proofs.CopyFrame.
+  Model.LabelModel Proofs.ForestInv Proofs.CopyBase Proofs.CopyProofs Proofs.LabelProofs Proofs.ForestFrame Proofs.CopyFrame Model.KwModel Proofs.KwProofs.
 Import ListNotations.
 From Coq Require String.
 Import String.StringSyntax.
@@ -171,13 +171,32 @@ Theorem C18_label_injective_refuted :
 Proof. exact iter_not_injective. Qed.
 Print Assumptions C18_label_injective_refuted.
 
+(* ---- the style keywords of copy(): Model/KwModel.v mirrors BaseGeo._process_style_kwargs (keys = the
+   part after `style_`; a value is `option nat`, None = Python's None).  The processed dictionary answers,
+   for EVERY key, the value the caller gave last for it - also when that value is None - and otherwise
+   what the `style=` dictionary said; nothing is dropped. *)
+Theorem C18_style_kwargs_faithful : forall (style : option dict) (kws : list (nat * pyval)) (k : nat) (d : dict),
+  kws <> [] -> process_style_kwargs style kws = Some d ->
+  lookup k d = match given k kws with
+               | Some v => Some v
+               | None => match style with Some s => lookup k s | None => None end
+               end.
+Proof. exact process_faithful. Qed.
+Print Assumptions C18_style_kwargs_faithful.
+
+Theorem C18_style_kwargs_none_kept : forall (style : option dict) (kws : list (nat * pyval)) (k : nat) (d : dict),
+  process_style_kwargs style kws = Some d -> given k kws = Some None -> lookup k d = Some None.
+Proof. exact none_is_kept. Qed.
+Print Assumptions C18_style_kwargs_none_kept.
+
 (* the tie to the source text for the methods CopyModel mirrors: BaseGeo.copy, the lazy style getter,
-   the parent setter and add_iteration_suffix are the ones the model was written against (AST
+   the parent setter, _process_style_kwargs and add_iteration_suffix are the ones the model was written against (AST
    fingerprints regenerated from /repo on every run); any edit of one of them breaks this obligation *)
 Definition c18_methods : list String.string :=
-  (["BaseGeo.copy"; "BaseGeo.style:getter"; "BaseGeo.parent:setter"; "utility.add_iteration_suffix"])%list.
+  (["BaseGeo.copy"; "BaseGeo.style:getter"; "BaseGeo.parent:setter"; "BaseGeo._process_style_kwargs";
+   "utility.add_iteration_suffix"])%list.
 Definition pick (l : list (String.string * String.string)) : list (String.string * String.string) :=
   filter (fun p => existsb (String.eqb (fst p)) c18_methods) l.
 Example C18_model_pinned_to_source :
-  pick forest_fingerprints = pick pinned_forest_fingerprints /\ length (pick forest_fingerprints) = 4.
+  pick forest_fingerprints = pick pinned_forest_fingerprints /\ length (pick forest_fingerprints) = 5.
 Proof. split; reflexivity. Qed.
